@@ -230,7 +230,24 @@ def authNum : AuthType → String
   | .requireAndVerifyClientCert => "4"
 
 /-- host names of the `cf` cases (harness `cfNames`) -/
-def cfNames : List Bytes := [str "a.test", str "b.test", str "secret.test", str "k.test"]
+def cfNames : List (Bytes × Option Bytes) :=
+  [(str "a.test", none), (str "b.test", none), (str "secret.test", none), (str "k.test", none),
+   (str "*.w.test", none), ([symEacute] ++ str ".test", some (str "xn--9ca.test"))]
+
+/-- what clients send for site `i`: the name; an instance and the empty-label non-instance of the
+    wildcard site; the A-label of the IDN site -/
+def cfInstances (i : Nat) : List Bytes :=
+  if i == 4 then [str "x.w.test", str ".w.test"]
+  else if i == 5 then [str "xn--9ca.test"]
+  else match cfNames[i]? with
+    | some (n, _) => [n]
+    | none => []
+
+/-- the host a route of site `i` matches after MatchHost.Provision (IDNA form) -/
+def cfRouteName (n : Bytes × Option Bytes) : Bytes :=
+  match n.2 with
+  | some a => a
+  | none => n.1
 
 def cfProbeOther : Bytes := str "zz.test"
 
@@ -257,7 +274,7 @@ def parseSubChar : Char → Option Sub
 def parseCfSite (s : String) : Option (Nat × Option (List Sub)) :=
   match s.splitOn "/" with
   | [n, subs] => do
-    let i ← (match n.toList with | [c] => if '0' ≤ c ∧ c ≤ '3' then some (c.toNat - 48) else none | _ => none)
+    let i ← (match n.toList with | [c] => if '0' ≤ c ∧ c ≤ '5' then some (c.toNat - 48) else none | _ => none)
     if subs == "~" then pure (i, none)
     else if subs == "." then pure (i, some [])
     else if subs == "" then none
@@ -284,8 +301,8 @@ def runCf (so : StrictOpt) (raw : List (Nat × Option (List Sub))) : String :=
   let parsed : Option (List Site) := raw.mapM fun (i, subs) =>
     match cfNames[i]?, subs with
     | none, _ => none
-    | some name, none => some (name, none)
-    | some name, some l => (parseClientAuth l).map fun conf => (name, some conf)
+    | some name, none => some (provisionedSniName name, none)
+    | some name, some l => (parseClientAuth l).map fun conf => (provisionedSniName name, some conf)
   match parsed, strictOption so with
   | some sites, some cfg =>
     let pcs := adaptPolicies sites
@@ -295,14 +312,15 @@ def runCf (so : StrictOpt) (raw : List (Nat × Option (List Sub))) : String :=
     | some builts =>
       let ps := pcs.map (·.1)
       let strict := effectiveStrict cfg ps
-      let names := sites.map (·.1)
+      let routeNames := raw.filterMap fun (i, _) => (cfNames[i]?).map cfRouteName
+      let names := raw.flatMap fun (i, _) => cfInstances i
       let probes := names ++ [cfProbeOther]
       let auths := probes.map fun sni =>
         match choose false ps ⟨sni, fun _ => false⟩ with
         | .config k => (match builts[k]? with | some b => authNum b.bits.auth | none => "?")
         | .dropped _ => "d"
         | .noMatch => "-"
-      let served := probes.flatMap fun sni => names.map fun host => showServed (serve strict names (some sni) host)
+      let served := probes.flatMap fun sni => names.map fun host => showServed (serve strict routeNames (some sni) host)
       "strict=" ++ bit strict ++ " a=" ++ "".intercalate auths ++ " r=" ++ ",".intercalate served
   | _, _ => "err:adapt"
 
